@@ -126,7 +126,6 @@ def optNat : Option Nat → Json
 def encodeOutcome : Outcome → Json
   | .notProxied => J.obj [("kind", Json.str "notProxied")]
   | .forward => J.obj [("kind", Json.str "forward")]
-  | .plainError c => J.obj [("kind", Json.str "plain"), ("code", J.nat c)]
   | .terminated a => J.obj [("kind", Json.str "terminated"), ("code", J.nat a.httpCode), ("retryAfter", optNat a.retryAfter),
                             ("reason", J.hex a.body.reason), ("statusCode", J.nat a.body.code)]
 
